@@ -180,7 +180,7 @@ pub fn judge(rep: &mut Report, solver: Solver, cfg: &Cfg, n: usize, y0: &[f64], 
 }
 
 fn run_case(rep: &mut Report, solver: Solver, mode: DimMode, prob: &IvpProblem, cfg: &Cfg, max_items: usize, also_collect: bool) {
-    let opts = Opts { budget: 3_000_000, max_items, mode, extra_next: 2, ..Default::default() };
+    let opts = Opts { budget: 3_000_000, max_items, mode, extra_next: 2, order: ((cfg.t1.to_bits() >> 7) % 6) as u8, ..Default::default() };
     let out = solve_real(solver, cfg, &prob.y0, prob, &opts);
     rep.eval();
     let case = || J::obj().set("solver", solver.name()).set("mode", format!("{:?}", mode)).set("cfg", cfg.to_json()).set("problem", prob.to_json());
